@@ -75,23 +75,15 @@ package stdlib
 // ---- C21: the script-level constructor InclusiveRange(start, end, step: s). An explicit step always goes through
 // NewInclusiveRangeValueWithStep (which rejects a zero step and a step leading away from the end, C21) with that very
 // step; only a missing step takes the default-step constructor. Stated over the calls the path made; the type
-// plumbing around it (static/sema type lookups, the default-step constructor) is abstracted.
+// plumbing around it (static/sema type lookups) is abstracted.
 //@ iface github.com/onflow/cadence/interpreter.StaticType.Equal
 //@   assumed
 //@   nofail
-//@ func github.com/onflow/cadence/interpreter.NewInclusiveRangeStaticType
-//@   assumed
-//@   nofail
-//@   env MemoryMeteringError
 //@ iface github.com/onflow/cadence/interpreter.InvocationContext.SemaTypeFromStaticType
 //@   assumed
 //@   option resultkind=*github.com/onflow/cadence/sema.InclusiveRangeType
 //@   nofail
 //@   env MemoryMeteringError
-//@ func github.com/onflow/cadence/interpreter.NewInclusiveRangeValue
-//@   assumed
-//@   env MemoryMeteringError ComputationMeteringError InclusiveRangeConstructionError
-//@   ensures result != nil
 //@ func NewInclusiveRange
 //@   props C21
 //@   requires invocationContext != nil && start != nil && end != nil && inty(start) && inty(end) && samety(start, end)
@@ -100,3 +92,6 @@ package stdlib
 //@   modifies ghost("metered")
 //@   ensures[C21] step != nil ==> called("interpreter.NewInclusiveRangeValueWithStep#1") && !called("interpreter.NewInclusiveRangeValue#1")
 //@   ensures[C21] step == nil ==> called("interpreter.NewInclusiveRangeValue#1")
+// ... with the very start, end and step it was given, in that order, and hands back what the constructor returned
+//@   ensures[C21] step != nil ==> callarg("interpreter.NewInclusiveRangeValueWithStep#1", 1) == start && callarg("interpreter.NewInclusiveRangeValueWithStep#1", 2) == end && callarg("interpreter.NewInclusiveRangeValueWithStep#1", 3) == step
+//@   ensures[C21] step == nil ==> callarg("interpreter.NewInclusiveRangeValue#1", 1) == start && callarg("interpreter.NewInclusiveRangeValue#1", 2) == end
